@@ -1092,6 +1092,56 @@ impl Drop for VersionRef<'_> {
     }
 }
 
+/////////////////////////////////////////// SnapshotCursor /////////////////////////////////////////
+
+/// A cursor over a snapshot of the tree.  It owns the reference to the version it reads, so the
+/// files of that version are not retired (moved to trash) while the cursor is alive; the lazy
+/// per-file cursors beneath it open their files by path on first use.
+pub(crate) struct SnapshotCursor<'a, C: Cursor> {
+    // NOTE:  Field order matters.  The cursor goes away before the version it reads.
+    cursor: C,
+    _version: VersionRef<'a>,
+}
+
+impl<'a, C: Cursor> SnapshotCursor<'a, C> {
+    pub(crate) fn new(cursor: C, version: VersionRef<'a>) -> Self {
+        Self {
+            cursor,
+            _version: version,
+        }
+    }
+}
+
+impl<C: Cursor> Cursor for SnapshotCursor<'_, C> {
+    fn seek_to_first(&mut self) -> Result<(), SError> {
+        self.cursor.seek_to_first()
+    }
+
+    fn seek_to_last(&mut self) -> Result<(), SError> {
+        self.cursor.seek_to_last()
+    }
+
+    fn seek(&mut self, key: &[u8]) -> Result<(), SError> {
+        self.cursor.seek(key)
+    }
+
+    fn prev(&mut self) -> Result<(), SError> {
+        self.cursor.prev()
+    }
+
+    fn next(&mut self) -> Result<(), SError> {
+        self.cursor.next()
+    }
+
+    fn key(&self) -> Option<KeyRef<'_>> {
+        self.cursor.key()
+    }
+
+    fn value(&self) -> Option<&[u8]> {
+        self.cursor.value()
+    }
+}
+
 ////////////////////////////////////////////// LsmTree /////////////////////////////////////////////
 
 pub struct LsmTree {
@@ -1660,7 +1710,7 @@ impl LsmTree {
         let version_scan = version.range_scan(start_bound, end_bound, u64::MAX)?;
         let cursor = PruningCursor::new(version_scan, u64::MAX)?;
         let cursor = BoundsCursor::new(cursor, start_bound, end_bound)?;
-        Ok(cursor)
+        Ok(SnapshotCursor::new(cursor, version))
     }
 }
 
